@@ -68,7 +68,7 @@ MIN_EVENTS = {
 # cases per stream: (quick, thorough)
 COUNTS = {
     'dense': (60, 600), 'dense_general': (80, 900), 'einsum': (50, 500), 'conv': (260, 4500), 'conv_local': (60, 900),
-    'conv_transpose': (150, 2400), 'embed': (50, 500), 'embed_int': (30, 300), 'pool': (120, 1500), 'norm': (220, 3600), 'norm_highrank': (40, 400), 'batchnorm': (70, 1200),
+    'conv_transpose': (150, 2400), 'embed': (50, 500), 'embed_int': (30, 300), 'pool': (120, 1500), 'norm': (220, 3600), 'norm_highrank': (40, 400), 'norm_axis_name': (60, 400), 'batchnorm': (70, 1200),
     'dropout': (40, 300), 'lora': (30, 200),
 }
 
@@ -1037,6 +1037,87 @@ def run_norm(ctx, c, npr):
 
 
 STREAMS['norm'] = (gen_norm, run_norm, lambda c: int(np.prod(c['shape'])) > 2)
+
+
+def gen_norm_axis_name(rng):
+  """Normalisation layers constructed with axis_name=... and called under jax.vmap(axis_name=...): the statistics are those of the
+  slices combined over the named axis (what pmean of equally sized slices gives), for the stacked-moments path and the single-array
+  path (RMSNorm, use_fast_variance=False) alike, in both APIs."""
+  kind = rng.choice(['layer', 'rms', 'group', 'batch', 'layer', 'rms'])
+  return dict(kind=kind, api=rng.choice(['linen', 'nnx']), fast=rng.random() < 0.5, B=rng.randint(2, 3), n=rng.randint(2, 3),
+              f=rng.choice([2, 4]), eps=rng.choice([1e-3, 1e-2, 0.1]), mask=rng.choice([None, None, None, 'equal_counts', 'unequal_counts']))
+
+
+def run_norm_axis_name(ctx, c, npr):
+  import jax
+  import jax.numpy as jnp
+  import flax.linen as nn
+  from flax import nnx
+  kind, B, n, f = c['kind'], c['B'], c['n'], c['f']
+  x = (vals(npr, (B, n, f)) + np.arange(B).reshape(B, 1, 1) * 1.5).astype(np.float32)   # slices with clearly different statistics
+  S = vals(npr, (f,), 1.0, nonzero=True)
+  Bs = None if kind == 'rms' else vals(npr, (f,), 1.0)
+  mask = None
+  if c['mask'] and kind != 'rms':
+    mask = np.ones((B, n, f), bool)
+    if c['mask'] == 'equal_counts':
+      mask[:, 0, 0] = False                     # every slice loses the same number of positions
+    else:
+      mask[0, :n - 1, 0] = False                # slice 0 loses n-1 positions, the other slices none
+  xj, mj = J(x), None if mask is None else jnp.asarray(mask)
+  # reference: one array, the mapped axis joins the reduction axes
+  if kind in ('layer', 'rms'):
+    want, _ = L().layer_norm(x, (0, 2), (2,), c['eps'], S, Bs, mask, use_mean=kind == 'layer')
+  elif kind == 'group':
+    want, _ = L().group_norm(x, 2 if f % 2 == 0 else 1, (0, 1, 2), c['eps'], S, Bs, mask)
+  else:
+    want, _ = L().layer_norm(x, (0, 1), (2,), c['eps'], S, Bs, mask)
+  ci = const_init()
+  common = dict(epsilon=c['eps'], use_fast_variance=c['fast'], axis_name='b')
+  ctx.op('%s.%s(axis_name) under vmap' % (c['api'], kind))
+  mkw = lambda m: {} if m is None else dict(mask=m)  # noqa: E731
+  if c['api'] == 'linen':
+    if kind == 'layer':
+      mod = nn.LayerNorm(**common)
+    elif kind == 'rms':
+      mod = nn.RMSNorm(**common)
+    elif kind == 'group':
+      mod = nn.GroupNorm(num_groups=2 if f % 2 == 0 else 1, reduction_axes=(0, 1), **common)
+    else:
+      mod = nn.BatchNorm(use_running_average=False, momentum=0.9, **common)
+    P = {'scale': J(S)}
+    if Bs is not None:
+      P['bias'] = J(Bs)
+    V = {'params': P}
+    if kind == 'batch':
+      V['batch_stats'] = {'mean': jnp.zeros((f,)), 'var': jnp.ones((f,))}
+
+    def one(xs, ms):
+      out = mod.apply(V, xs, **mkw(ms), **({'mutable': ['batch_stats']} if kind == 'batch' else {}))
+      return out[0] if kind == 'batch' else out
+    y = jax.vmap(one, axis_name='b')(xj, mj) if mj is not None else jax.vmap(lambda xs: one(xs, None), axis_name='b')(xj)
+  else:
+    if kind == 'layer':
+      m = nnx.LayerNorm(f, rngs=rngs0(), **common)
+    elif kind == 'rms':
+      m = nnx.RMSNorm(f, rngs=rngs0(), **common)
+    elif kind == 'group':
+      m = nnx.GroupNorm(f, num_groups=2 if f % 2 == 0 else 1, reduction_axes=(0, 1), rngs=rngs0(), **common)
+    else:
+      m = nnx.BatchNorm(f, use_running_average=False, momentum=0.9, rngs=rngs0(), **common)
+    m.scale.value = J(S)
+    if Bs is not None:
+      m.bias.value = J(Bs)
+    gd, st = nnx.split(m)
+
+    def one(xs, ms):
+      return nnx.merge(gd, st)(xs, **mkw(ms))
+    y = jax.vmap(one, axis_name='b')(xj, mj) if mj is not None else jax.vmap(lambda xs: one(xs, None), axis_name='b')(xj)
+  mech = 'norm.axis_name:%s' % kind + ('' if c['mask'] != 'unequal_counts' or mask is None else ':masked_slices_with_unequal_counts')
+  close(ctx, mech, y, want, detail=dict(api=c['api'], fast=c['fast'], mask=c['mask']))
+
+
+STREAMS['norm_axis_name'] = (gen_norm_axis_name, run_norm_axis_name, lambda c: True)
 
 
 def gen_norm_highrank(rng):
